@@ -5,7 +5,9 @@ import (
 	"reflect"
 	"unsafe"
 
+	"github.com/cronokirby/saferith"
 	"github.com/fxamacker/cbor/v2"
+	"github.com/taurusgroup/multi-party-sig/internal/round"
 	"github.com/taurusgroup/multi-party-sig/internal/zzverif/faults"
 	"github.com/taurusgroup/multi-party-sig/pkg/math/curve"
 	"github.com/taurusgroup/multi-party-sig/pkg/math/polynomial"
@@ -30,35 +32,39 @@ func dealerPolynomial(h protocol.Handler) (reflect.Value, bool) {
 	if !ok {
 		return reflect.Value{}, false
 	}
+	return findPolynomial(r, 0)
+}
+
+// findPolynomial finds a non-nil *polynomial.Polynomial field in v (through embedded structs).
+func findPolynomial(v reflect.Value, depth int) (reflect.Value, bool) {
 	pt := reflect.TypeOf((*polynomial.Polynomial)(nil))
-	var find func(v reflect.Value, depth int) (reflect.Value, bool)
-	find = func(v reflect.Value, depth int) (reflect.Value, bool) {
-		if v.Kind() == reflect.Ptr {
-			if v.IsNil() {
-				return reflect.Value{}, false
-			}
-			v = v.Elem()
-		}
-		if v.Kind() != reflect.Struct || depth > 6 {
+	if v.Kind() == reflect.Interface {
+		v = v.Elem()
+	}
+	if v.Kind() == reflect.Ptr {
+		if v.IsNil() {
 			return reflect.Value{}, false
 		}
-		for i := 0; i < v.NumField(); i++ {
-			f := v.Field(i)
-			if f.Type() == pt {
-				f = unexported(f)
-				if !f.IsNil() {
-					return f, true
-				}
-			}
-			if v.Type().Field(i).Anonymous {
-				if x, ok := find(unexported(f), depth+1); ok {
-					return x, true
-				}
-			}
-		}
+		v = v.Elem()
+	}
+	if v.Kind() != reflect.Struct || depth > 6 {
 		return reflect.Value{}, false
 	}
-	return find(r, 0)
+	for i := 0; i < v.NumField(); i++ {
+		f := v.Field(i)
+		if f.Type() == pt {
+			f = unexported(f)
+			if !f.IsNil() {
+				return f, true
+			}
+		}
+		if v.Type().Field(i).Anonymous {
+			if x, ok := findPolynomial(unexported(f), depth+1); ok {
+				return x, true
+			}
+		}
+	}
+	return reflect.Value{}, false
 }
 
 func coefficients(p *polynomial.Polynomial) reflect.Value {
@@ -104,17 +110,87 @@ func polynomialField(proto string) (field string, round int) {
 	return "", 0
 }
 
-func specialCases(w *world, check string) []kase {
+// startCases: a dealer that deviates from the very first instruction.  Its start function is wrapped
+// and the secret polynomial of its first round is replaced before the constructor finalises that
+// round, so the commitment, the opening, the proofs and every share it sends are consistent with
+// each other: degree t+1, degree t-1, and (in a refresh, where the constant must be zero) a
+// polynomial with the constant 1.  Used for the CMP key generation and refresh, whose polynomial
+// is bound by a hash commitment in the first message.
+func startCases(w *world) []kase {
 	var out []kase
-	field, rnd := polynomialField(w.sc.Proto)
-	if field == "" {
+	if w.sc.Proto != "cmp-keygen" && w.sc.Proto != "cmp-refresh" {
 		return nil
 	}
+	devs := w.spec.IDs
+	if !vkitThorough() {
+		devs = devs[:1]
+	}
+	variants := []string{"degree+1", "degree-1"}
+	if w.sc.Proto == "cmp-refresh" {
+		variants = append(variants, "constant=1")
+	}
+	for _, d := range devs {
+		for _, variant := range variants {
+			d, variant := d, variant
+			applied := false
+			f := &faults.Fault{Slot: faults.Slot{From: d, Round: 2, Broadcast: true}, Mut: faults.Mut{Path: "<first round>.polynomial", Op: "dealer-from-start-" + variant}, Mode: "state", Timing: "start", Deviator: d}
+			f.WrapStart = func(sf protocol.StartFunc) protocol.StartFunc {
+				return func(sessionID []byte) (round.Session, error) {
+					r, err := sf(sessionID)
+					if err != nil || r == nil {
+						return r, err
+					}
+					pv, ok := findPolynomial(reflect.ValueOf(r), 0)
+					if !ok {
+						return r, err
+					}
+					p := pv.Interface().(*polynomial.Polynomial)
+					var q *polynomial.Polynomial
+					switch variant {
+					case "degree+1":
+						q = withDegree(p, +1)
+					case "degree-1":
+						q = withDegree(p, -1)
+					case "constant=1":
+						g := curve.Secp256k1{}
+						q = withDegree(p, 0)
+						one := g.NewScalar().SetNat(new(saferith.Nat).SetUint64(1))
+						var s curve.Scalar = one
+						coefficients(q).Index(0).Set(reflect.ValueOf(&s).Elem())
+					}
+					if q != nil {
+						pv.Set(reflect.ValueOf(q))
+						applied = true
+					}
+					return r, err
+				}
+			}
+			f.StateHook = func(h protocol.Handler) bool { return applied }
+			out = append(out, kase{Scenario: w.sc, Deviator: d, Slot: f.Slot, Path: "<first round>.polynomial", Op: f.Mut.Op, Menu: "coordinated", fault: f})
+		}
+	}
+	return out
+}
+
+func specialCases(w *world, check string) []kase {
+	var out []kase
+	out = append(out, startCases(w)...)
+	field, rnd := polynomialField(w.sc.Proto)
+	if field == "" {
+		return out
+	}
 	for _, d := range w.spec.IDs {
-		for _, delta := range []int{+1, -1} {
+		deltas := []int{+1, -1}
+		if w.sc.Proto == "frost-refresh" {
+			deltas = append(deltas, 0) // 0: same degree, constant 1 (a refresh polynomial must vanish at 0)
+		}
+		for _, delta := range deltas {
 			d, delta := d, delta
 			var phi []byte
 			name := fmt.Sprintf("dealer-polynomial-degree%+d-consistent-shares", delta)
+			if delta == 0 {
+				name = "dealer-refresh-polynomial-constant=1-consistent-shares"
+			}
 			slot := faults.Slot{From: d, Round: rnd, Broadcast: true}
 			f := faults.MessageFault(slot, name, "replace", func(m *protocol.Message) *protocol.Message {
 				if phi == nil {
@@ -144,6 +220,11 @@ func specialCases(w *world, check string) []kase {
 				q := withDegree(pv.Interface().(*polynomial.Polynomial), delta)
 				if q == nil {
 					return false
+				}
+				if delta == 0 {
+					g := curve.Secp256k1{}
+					var one curve.Scalar = g.NewScalar().SetNat(new(saferith.Nat).SetUint64(1))
+					coefficients(q).Index(0).Set(reflect.ValueOf(&one).Elem())
 				}
 				pv.Set(reflect.ValueOf(q))
 				phi, _ = polynomial.NewPolynomialExponent(q).MarshalBinary()
